@@ -137,29 +137,25 @@ class FilReader(Filterbank):
             )
             raise ValueError(msg)
 
-        self._file.seek(start * self.samp_stride)
-        samples_read = np.zeros(self.header.nchans, dtype=int)
+        # Channel c needs samples [start + delay_c, start + delay_c + nsamps)
+        first_sample = int(min_sample.min())
+        last_sample = int(max_sample.max())
+        self._file.seek(first_sample * self.samp_stride)
         data = np.zeros((self.header.nchans, nsamps), dtype=self._file.bitsinfo.dtype)
 
-        for isamp in track(range(nsamps), description="Reading dedispersed data ..."):
-            samples_offset = start + isamp
-            relevant_chans = np.argwhere(
-                np.logical_and(
-                    max_sample > samples_offset,
-                    min_sample <= samples_offset,
-                ),
-            ).flatten()
-            chans_slice = np.arange(
-                relevant_chans.min(),
-                relevant_chans.max() + 1,
-                dtype=int,
+        for samples_offset in track(
+            range(first_sample, last_sample),
+            description="Reading dedispersed data ...",
+        ):
+            relevant_chans = np.logical_and(
+                max_sample > samples_offset,
+                min_sample <= samples_offset,
             )
             # Read channel data for for each sample
             sample_data = self._file.cread(self.header.nchans)
-            data[chans_slice, samples_read[chans_slice]] = sample_data[chans_slice]
-
-            # Update sample counts
-            samples_read[chans_slice] += 1
+            data[relevant_chans, samples_offset - min_sample[relevant_chans]] = (
+                sample_data[relevant_chans]
+            )
 
         start_mjd = self.header.mjd_after_nsamps(start)
         new_header = self.header.new_header({"tstart": start_mjd, "nsamples": nsamps})
